@@ -22,10 +22,10 @@ CAUSE={
 }
 out={}
 for sig,e in sorted(seen.items()):
-    m=re.match(r'fail=(\S+) op=(\S+) mag=(\S+)$',sig)
+    m=re.match(r'fail=(\S+) op=(\S+) mag=(\S+) kinds=(\S+)$',sig)
     if not m:
         print('unparsed',sig,file=sys.stderr); continue
-    fail,op,mag=m.groups(); kinds='int/ratio/float'
+    fail,op,mag,kinds=m.groups()
     cause=CAUSE.get(fail,fail)
     if mag=='big':
         key=sig
